@@ -30,9 +30,9 @@ Print Assumptions response_parses_to_exactly_one.
     answered request, in order, with nothing left over (no response splitting, no interleaving) *)
 Theorem connection_parses_to_exactly_the_responses : forall (responses : N -> bytes) (qs : list request),
   Forall (req_ok responses) qs ->
-  parse_stream (map (fun q => is_head (q_cfg q)) (answered qs))
+  parse_stream (map (fun q => is_head (q_cfg q)) (answered responses qs))
                (fst (fst (run_conn responses (map (fun q => (q_cfg q, q_pre q ++ map Write (q_ws q))) qs))))
-  = Some (map (q_expected responses) (answered qs)).
+  = Some (map (q_expected responses) (answered responses qs)).
 Proof. exact connection_parses. Qed.
 Print Assumptions connection_parses_to_exactly_the_responses.
 
@@ -44,12 +44,17 @@ Theorem no_body_for_HEAD_204_304 : forall c s ws,
 Proof. exact muted_wire. Qed.
 Print Assumptions no_body_for_HEAD_204_304.
 
-(** framing is consistent with the connection: a response delimited by close is only sent when the connection
-    is then closed; the transport is closed exactly when some answered request was not persistent *)
+(** framing is consistent with the connection: a response delimited by close is only sent when the connection is
+    then closed; the transport is closed exactly when some answered request does not leave the connection open; and
+    the connection is left open only if the request allowed it AND the head that was written did not say
+    "Connection: close" (whoever set that header: the server for the client's close, or the application - repaired by
+    fixes/C20-honour-connection-close.patch) *)
 Theorem framing_consistent : forall (responses : N -> bytes),
   (forall c s ws, self_delimited (expected c s ws) = false -> persistent c = false) /\
   (forall qs, snd (run_conn responses (map (fun q => (q_cfg q, q_pre q ++ map Write (q_ws q))) qs))
-              = existsb (fun q => negb (persistent (q_cfg q))) qs).
+              = existsb (fun q => negb (respond_open responses (q_cfg q) (q_pre q ++ map Write (q_ws q)))) qs) /\
+  (forall c ops, respond_open responses c ops = true ->
+     persistent c = true /\ s_saidclose (finish c (fst (run_ops responses c (init c) ops))) = false).
 Proof. exact framing_consistent_all. Qed.
 Print Assumptions framing_consistent.
 
@@ -97,6 +102,24 @@ Theorem sanitised_values_cannot_break_lines :
   (forall v, san (san v) = san v).
 Proof. exact sanitisation_all. Qed.
 Print Assumptions sanitised_values_cannot_break_lines.
+
+(** sanitisation is exactly "every line break (CRLF, CR, LF) becomes one SP", except that a break at the very end
+    leaves no SP: the two agree up to one trailing SP, hence exactly after the recipient's OWS trimming *)
+Theorem sanitised_value_is_breaks_replaced_by_spaces : forall v,
+  (breaks_to_sp v = san v \/ breaks_to_sp v = san v ++ [32]) /\ trim_ows (san v) = trim_ows (breaks_to_sp v).
+Proof. intro v. split; [exact (san_breaks v)|exact (san_is_breaks_to_sp_modulo_ows v)]. Qed.
+Print Assumptions sanitised_value_is_breaks_replaced_by_spaces.
+
+(** the structure of every cookie addCookie accepts: name=value (both sanitised) followed by attributes that are each
+    "; " + one of Expires= / Domain= / Path= / Max-Age= / Comment= + a sanitised value, Secure, HttpOnly, SameSite=lax|strict;
+    a recipient that splits the cookie at ";" gets back exactly these pieces - nothing passed to addCookie can add,
+    split or forge an attribute *)
+Theorem cookie_attributes_cannot_be_forged : forall ck k v b,
+  enc_value (ck_k ck) = Good k -> enc_value (ck_v ck) = Good v -> cookie_bytes ck = Good b ->
+  exists attrs, Forall attr_form attrs /\ b = glue (csan k ++ [61] ++ csan v) attrs /\
+                split_semi b = (csan k ++ [61] ++ csan v) :: map (cons 32) attrs.
+Proof. exact cookie_attributes_exact. Qed.
+Print Assumptions cookie_attributes_cannot_be_forged.
 
 (** finding F6 (the code before the repair): with the reason phrase copied verbatim, a reason containing CRLF
     makes the recipient see a header the application never set *)
